@@ -18,7 +18,7 @@
    Modelled: block quotes, bullet and ordered lists (start number, delimiter, tight/loose,
    "may interrupt a paragraph" restrictions), paragraphs with laziness, ATX and setext
    headings, fenced and indented code, thematic breaks, blank lines, tabs.
-   HTML blocks: start conditions 2, 6, 7 for the tag names of the alphabets.
+   HTML blocks: start conditions 2, 6 (the full list of tag names), 7 (for the tag names of the alphabets).
    Link reference definitions at the start of paragraphs (destination without angle brackets, quoted titles).
    Not modelled (outside every alphabet used with this module): HTML block kinds 1, 3-5, <..> destinations and
    parenthesised titles of definitions; inline structure is in MdInline. *)
@@ -237,7 +237,18 @@ FenceLen(l, f) == Run(l, f.nns, FenceCh(l, f))
 StartsWithAt(l, i, w) == i + Len(w) <= Len(l) /\ SubSeq(l, i + 1, i + Len(w)) = w
 RECURSIVE HasSeqFrom(_, _, _)
 HasSeqFrom(l, i, w) == IF i + Len(w) > Len(l) THEN FALSE ELSE StartsWithAt(l, i, w) \/ HasSeqFrom(l, i + 1, w)
-BlockTags == {<<"d", "i", "v">>, <<"p">>, <<"t", "a", "b", "l", "e">>}
+(* start condition 6: the tag names on which CommonMark 0.29 and 0.31 agree (`source` and `search` are left out) *)
+BlockTags == {<<"a", "d", "d", "r", "e", "s", "s">>, <<"a", "r", "t", "i", "c", "l", "e">>, <<"a", "s", "i", "d", "e">>, <<"b", "a", "s", "e">>, <<"b", "a", "s", "e", "f", "o", "n", "t">>, <<"b", "l", "o", "c", "k", "q", "u", "o", "t", "e">>,
+              <<"b", "o", "d", "y">>, <<"c", "a", "p", "t", "i", "o", "n">>, <<"c", "e", "n", "t", "e", "r">>, <<"c", "o", "l">>, <<"c", "o", "l", "g", "r", "o", "u", "p">>, <<"d", "d">>,
+              <<"d", "e", "t", "a", "i", "l", "s">>, <<"d", "i", "a", "l", "o", "g">>, <<"d", "i", "r">>, <<"d", "i", "v">>, <<"d", "l">>, <<"d", "t">>,
+              <<"f", "i", "e", "l", "d", "s", "e", "t">>, <<"f", "i", "g", "c", "a", "p", "t", "i", "o", "n">>, <<"f", "i", "g", "u", "r", "e">>, <<"f", "o", "o", "t", "e", "r">>, <<"f", "o", "r", "m">>, <<"f", "r", "a", "m", "e">>,
+              <<"f", "r", "a", "m", "e", "s", "e", "t">>, <<"h", "1">>, <<"h", "2">>, <<"h", "3">>, <<"h", "4">>, <<"h", "5">>,
+              <<"h", "6">>, <<"h", "e", "a", "d">>, <<"h", "e", "a", "d", "e", "r">>, <<"h", "r">>, <<"h", "t", "m", "l">>, <<"i", "f", "r", "a", "m", "e">>,
+              <<"l", "e", "g", "e", "n", "d">>, <<"l", "i">>, <<"l", "i", "n", "k">>, <<"m", "a", "i", "n">>, <<"m", "e", "n", "u">>, <<"m", "e", "n", "u", "i", "t", "e", "m">>,
+              <<"n", "a", "v">>, <<"n", "o", "f", "r", "a", "m", "e", "s">>, <<"o", "l">>, <<"o", "p", "t", "g", "r", "o", "u", "p">>, <<"o", "p", "t", "i", "o", "n">>, <<"p">>,
+              <<"p", "a", "r", "a", "m">>, <<"s", "e", "c", "t", "i", "o", "n">>, <<"s", "u", "m", "m", "a", "r", "y">>, <<"t", "a", "b", "l", "e">>, <<"t", "b", "o", "d", "y">>, <<"t", "d">>,
+              <<"t", "f", "o", "o", "t">>, <<"t", "h">>, <<"t", "h", "e", "a", "d">>, <<"t", "i", "t", "l", "e">>, <<"t", "r">>, <<"t", "r", "a", "c", "k">>,
+              <<"u", "l">>}
 OtherTags == {<<"a">>, <<"b">>, <<"s", "p", "a", "n">>}
 TagAt(l, i, tags) == \E w \in tags : StartsWithAt(l, i, w)
 TagLen(l, i, tags) == Len(CHOOSE w \in tags : StartsWithAt(l, i, w) /\ \A v \in tags : StartsWithAt(l, i, v) => Len(v) <= Len(w))
